@@ -225,6 +225,10 @@ func valueForAdmission(t lexref.Tok) string {
 	return ""
 }
 
+func splitTypeClosers(sig string) string {
+	return strings.ReplaceAll(sig, ">>\x00\x000\x01", ">\x00\x000\x01>\x00\x000\x01")
+}
+
 // C16: whitespace, comments and keyword case never change the AST.
 func C16(r *explore.Run) {
 	r.Rule = "every sentence of G within the sentence bound x every re-spelling within the re-spelling bound (trivia alphabet {SP,LF,TAB SP,/*c*/,SP/* c */SP,--c LF,#c LF,//c LF,'',FF,VT,CRLF,NBSP,U+3000 U+0085,/***/,/* x **/,/*/ */} at each gap incl. before the first and after the last token; case {UPPER,lower,MiXeD} of each reserved/pseudo keyword) plus the uniform re-spellings; " +
@@ -233,17 +237,31 @@ func C16(r *explore.Run) {
 	// the core trivia (one per lexical class) are used with the deeper sentences, the whole alphabet with the shallow ones
 	core := []string{" ", "\n", "/*c*/", "--c\n", "", "\r\n"}
 	all := trivia
-	respell(r, 1, 1, all)
-	respell(r, 2, 1, core)
+	respell(r, "", 1, 1, all)
+	respell(r, "", 2, 1, core)
+	// the type grammar is small: its nested forms (ARRAY<STRUCT< >>, closers fused to ">>") lie 4 deviations deep
+	respell(r, "type", 4, 1, core)
 	if r.Tier == "thorough" {
-		respell(r, 2, 1, all)
-		respell(r, 1, 2, all)
+		respell(r, "", 2, 1, all)
+		respell(r, "", 1, 2, all)
+		respell(r, "type", 5, 2, core)
 	}
 }
 
-func respell(r *explore.Run, sDev, rDev int, trivia []string) {
+// respell explores the re-spellings of the sentences of every root of G (only == "") or of one root.
+func respell(r *explore.Run, only string, sDev, rDev int, trivia []string) {
 	roots := grammar.Roots
-	r.Explore(explore.Options{Space: fmt.Sprintf("S6/respellings(%d,%d,%d trivia)", sDev, rDev, len(trivia)), MaxDev: sDev + rDev, SplitLen: 3,
+	label := ""
+	if only != "" {
+		roots = nil
+		for _, rt := range grammar.Roots {
+			if rt.Name == only {
+				roots = append(roots, rt)
+			}
+		}
+		label = "/" + only
+	}
+	r.Explore(explore.Options{Space: fmt.Sprintf("S6/respellings%s(%d,%d,%d trivia)", label, sDev, rDev, len(trivia)), MaxDev: sDev + rDev, SplitLen: 3,
 		Bound: fmt.Sprintf("sentences of G with <=%d deviations x (re-spellings with <=%d deviations over %d trivia forms + %d uniform re-spellings)", sDev, rDev, len(trivia), len(trivia)*3)},
 		func(c *explore.Ctx) {
 			root := roots[c.ChooseFree(len(roots))]
@@ -322,6 +340,11 @@ func respell(r *explore.Run, sDev, rDev int, trivia []string) {
 			c.Input(text)
 			want, ok1 := sigTokens(def)
 			got, ok2 := sigTokens(text)
+			if only == "type" {
+				// in a type every ">" is a closing bracket: two of them written ">>" are still those two tokens
+				// (the parser splits the lexer's ">>" again), so "> >" and ">>" are re-spellings of each other
+				want, got = splitTypeClosers(want), splitTypeClosers(got)
+			}
 			if !ok1 || !ok2 || want != got {
 				c.Count("not_admitted", 1)
 				return
